@@ -328,6 +328,12 @@ def history_block(ctx, rng, st, sources, mode, iset, fkw, other=None, tag=''):
                 hists += list(itertools.permutations(range(len(others)), L))
             if ctx.quick:
                 hists = [hists[i] for i in rng.choice(len(hists), 60, replace=False)]
+            else:
+                # all orderings of up to 4 of the first five other sources on the plain package; the rest sampled
+                full = [h for h in hists if max(h) < 5] if not tag and not fkw else []
+                fs = set(full)
+                rest = [h for h in hists if h not in fs]
+                hists = full + [rest[i] for i in rng.choice(len(rest), min(len(rest), 150), replace=False)]
             hists += [tuple(rng.integers(0, len(others), 6)) for _ in range(10)]
             shared = mk()
             for ih, h in enumerate(hists):
